@@ -244,11 +244,12 @@ Proof.
     + apply Permutation_nil in HP. exact HP.
 Qed.
 
-(* ---- but the ORDER of callbacks is not the order of transitions ---- *)
+(* ---- the ORDER of callbacks of concurrent committers is not guaranteed to be the order of their
+   transitions (a fact about the model, not a violation of the property as written) ---- *)
 (* two overlapping Adds of one name: A commits, B commits, B's callback, A's callback.  Every call
    has returned, each callback is correct on its own, yet a consumer that mirrors the router from
    its callbacks ends with client 1 under "n" while the registry holds client 2. *)
-Theorem cb_order_refuted :
+Theorem cb_order_not_guaranteed_add_add :
   exists g ths sched,
     let G := cgrun g ths sched (cginit (init 1000) ths) in
     call_done G = true /\ ccbs G <> slog (cst G) /\
@@ -259,7 +260,7 @@ Proof.
 Qed.
 
 (* ... also with a Remove overtaking the Add it undoes: the mirror keeps a client the registry dropped *)
-Theorem cb_order_remove_refuted :
+Theorem cb_order_not_guaranteed_add_remove :
   exists g ths sched,
     let G := cgrun g ths sched (cginit (init 1000) ths) in
     call_done G = true /\ replay (ccbs G) "n"%string = Some 1 /\ find "n"%string (sreg (cst G)) = None.
@@ -269,7 +270,7 @@ Proof.
 Qed.
 
 (* ... and a first Get overtaken by the Remove of the client it created *)
-Theorem cb_order_auto_refuted :
+Theorem cb_order_not_guaranteed_get_remove :
   exists g ths sched,
     let G := cgrun g ths sched (cginit (init 1000) ths) in
     call_done G = true /\ replay (ccbs G) "n"%string = Some 1000 /\ find "n"%string (sreg (cst G)) = None.
